@@ -231,6 +231,10 @@ void register_rules()
    R( "ascii", pegtl::ascii, ranges< char( 0xC0 ), char( 0xDF ), '\t', '\r', char( 0xFF ) > );
    R( "ascii", pegtl::ascii, ranges< 'x' > );
    R( "ascii", pegtl::ascii, ranges< 'p', 'q' > );
+   // equal bounds select the one<>-based specialisation of internal::range
+   R( "ascii", pegtl::ascii, range< 'm', 'm' > );
+   R( "ascii", pegtl::ascii, not_range< 'm', 'm' > );
+   R( "ascii", pegtl::ascii, not_range< '\n', '\n' > );
 
    // ---- strings (exact and case-insensitive)
    R( "string", pegtl::ascii, string< 'a', 'Z', '9', '_' > );
@@ -251,6 +255,8 @@ void register_rules()
    R( "utf8", pegtl::utf8, range< 0xD000, 0xEFFF > );
    R( "utf8", pegtl::utf8, not_range< 0x800, 0xFFFF > );
    R( "utf8", pegtl::utf8, ranges< 0x00, 0x7F, 0x10000, 0x10FFFF, 0xFEFF > );
+   R( "utf8", pegtl::utf8, range< 0x20AC, 0x20AC > );
+   R( "utf8", pegtl::utf8, not_range< 0x20AC, 0x20AC > );
 
    // ---- UTF-16
    R( "utf16be", pegtl::utf16_be, any );
@@ -260,6 +266,8 @@ void register_rules()
    R( "utf16be", pegtl::utf16_be, range< 0xD000, 0xEFFF > );
    R( "utf16be", pegtl::utf16_be, not_range< 0x10000, 0x10FFFF > );
    R( "utf16be", pegtl::utf16_be, ranges< 0x00, 0x7F, 0x10000, 0x103FF, 0xFEFF > );
+   R( "utf16be", pegtl::utf16_be, range< 0x10000, 0x10000 > );
+   R( "utf16be", pegtl::utf16_be, not_range< 0x1F600, 0x1F600 > );
    R( "utf16le", pegtl::utf16_le, any );
    R( "utf16le", pegtl::utf16_le, bom );
    R( "utf16le", pegtl::utf16_le, one< 0x41, 0xFFFF, 0x10000, 0x1F600, 0x10FFFF, 0xD7FF, 0xE000 > );
@@ -283,6 +291,8 @@ void register_rules()
    R( "utf32le", pegtl::utf32_le, range< 0xD000, 0xEFFF > );
    R( "utf32le", pegtl::utf32_le, not_range< 0x10000, 0x10FFFF > );
    R( "utf32le", pegtl::utf32_le, ranges< 0x00, 0x7F, 0x10000, 0x103FF, 0xFEFF > );
+   R( "utf32le", pegtl::utf32_le, range< 0x41, 0x41 > );
+   R( "utf32le", pegtl::utf32_le, not_range< 0x10FFFF, 0x10FFFF > );
 
    // ---- uint8 (all masks used below are also exercised with every byte value)
    R( "uint8", pegtl::uint8, any );
@@ -302,6 +312,10 @@ void register_rules()
    R( "uint8", pegtl::uint8, mask_range< 0xAA, 0x02, 0xA8 > );
    R( "uint8", pegtl::uint8, mask_not_range< 0x7F, 0x20, 0x7E > );
    R( "uint8", pegtl::uint8, mask_ranges< 0x3C, 0x04, 0x0C, 0x30, 0x38, 0x3C > );
+   R( "uint8", pegtl::uint8, range< 0x80, 0x80 > );
+   R( "uint8", pegtl::uint8, not_range< 0x80, 0x80 > );
+   R( "uint8", pegtl::uint8, mask_range< 0x0F, 0x05, 0x05 > );
+   R( "uint8", pegtl::uint8, mask_not_range< 0x0F, 0x05, 0x05 > );
 
    add_all_masks< 0 >();
 
@@ -318,6 +332,8 @@ void register_rules()
    R( "uint16be", pegtl::uint16_be, mask_range< 0xF00F, 0x1004, 0xE00B > );
    R( "uint16be", pegtl::uint16_be, mask_not_range< 0x7FFF, 0x0100, 0x7F00 > );
    R( "uint16be", pegtl::uint16_be, mask_ranges< 0x8001, 0x0000, 0x0001, 0x8001 > );
+   R( "uint16be", pegtl::uint16_be, not_range< 0x1234, 0x1234 > );
+   R( "uint16be", pegtl::uint16_be, mask_not_range< 0xFF00, 0x1200, 0x1200 > );
    R( "uint16le", pegtl::uint16_le, any );
    R( "uint16le", pegtl::uint16_le, one< 0x0000, 0x00FF, 0x0100, 0x7FFF, 0x8000, 0xFF00, 0xFFFF, 0x1234 > );
    R( "uint16le", pegtl::uint16_le, not_one< 0x0A0D, 0x8000 > );
@@ -356,6 +372,8 @@ void register_rules()
    R( "uint32le", pegtl::uint32_le, mask_range< 0xFF0000FF, 0x01000002, 0xFE0000FD > );
    R( "uint32le", pegtl::uint32_le, mask_not_range< 0x7FFFFFFF, 0x00000100, 0x7F000000 > );
    R( "uint32le", pegtl::uint32_le, mask_ranges< 0x80000001, 0x00000000, 0x00000001, 0x80000001 > );
+   R( "uint32le", pegtl::uint32_le, not_range< 0x01020304, 0x01020304 > );
+   R( "uint32le", pegtl::uint32_le, mask_range< 0x00FFFF00, 0x00020300, 0x00020300 > );
 
    // ---- uint64
    R( "uint64be", pegtl::uint64_be, any );
@@ -370,6 +388,7 @@ void register_rules()
    R( "uint64be", pegtl::uint64_be, mask_range< 0xFF000000000000FF, 0x0100000000000002, 0xFE000000000000FD > );
    R( "uint64be", pegtl::uint64_be, mask_not_range< 0x7FFFFFFFFFFFFFFF, 0x0000000000000100, 0x7F00000000000000 > );
    R( "uint64be", pegtl::uint64_be, mask_ranges< 0x8000000000000001, 0x0000000000000000, 0x0000000000000001, 0x8000000000000001 > );
+   R( "uint64be", pegtl::uint64_be, not_range< 0x0102030405060708, 0x0102030405060708 > );
    R( "uint64le", pegtl::uint64_le, any );
    R( "uint64le", pegtl::uint64_le, one< 0x0000000000000000, 0x00000000000000FF, 0xFF00000000000000, 0x7FFFFFFFFFFFFFFF, 0x8000000000000000, 0xFFFFFFFFFFFFFFFF, 0x0102030405060708, 0x00000000FFFFFFFF, 0x0000000100000000 > );
    R( "uint64le", pegtl::uint64_le, not_one< 0x8000000000000000, 0x0000000000000100 > );
